@@ -240,7 +240,10 @@ def fault_while_closing():
 
 def eof_no_stall():
     bad = []
-    for cls, extra in (('YachtDevicesNmea2000Gateway', "('h', 1)"), ('WaveShareNmea2000Gateway', "('/dev/null',)"), ('EByteNmea2000Gateway', "('h', 1)")):
+    # the stream ends at once, or in the middle of a line / packet
+    for cls, extra, chunks in (('YachtDevicesNmea2000Gateway', "('h', 1)", "[]"), ('WaveShareNmea2000Gateway', "('/dev/null',)", "[]"), ('EByteNmea2000Gateway', "('h', 1)", "[]"),
+                               ('YachtDevicesNmea2000Gateway', "('h', 1)", "[b'00:00:00.000 R 09F8027F 00 FC']"), ('ActisenseNmea2000Gateway', "('h', 1)", "[b'A000001.000 23FF7 1F513 01']"),
+                               ('WaveShareNmea2000Gateway', "('/dev/null',)", "[bytes([0xAA, 0x55, 1, 1, 1, 2])]"), ('EByteNmea2000Gateway', "('h', 1)", "[bytes([0x88, 1, 2, 3])]")):
         r = run_script(f'''
         async def main():
             c = IO.{cls}{extra}
@@ -248,7 +251,7 @@ def eof_no_stall():
             async def cb(s): trace.append(s.name)
             c.set_status_callback(cb)
             async def fake_impl():
-                c.reader = FakeReader([], eof=True); c.writer = FakeWriter([]); c._buffer = bytearray()
+                c.reader = FakeReader({chunks}, eof=True); c.writer = FakeWriter([]); c._buffer = bytearray()
             c._connect_impl = fake_impl
             beats = []
             async def heart():
@@ -263,11 +266,11 @@ def eof_no_stall():
         asyncio.run(main())
         ''', timeout=8)
         if r.get('timeout') or (r.get('beats', 0) < 5):
-            bad.append({'client': cls, 'observed': r})
+            bad.append({'client': cls, 'stream': chunks, 'observed': r})
         elif 'DISCONNECTED' not in r.get('trace', []):
-            bad.append({'client': cls, 'observed': r, 'note': 'end of stream is not reported as DISCONNECTED'})
+            bad.append({'client': cls, 'stream': chunks, 'observed': r, 'note': 'end of stream is not reported as DISCONNECTED'})
     if bad:
-        return {'scenario': 'the peer closes the stream (EOF) right after connect; a heartbeat task runs on the same loop', 'observed': bad,
+        return {'scenario': 'the peer closes the stream (EOF) right after connect, or after part of a line / packet; a heartbeat task runs on the same loop', 'observed': bad,
                 'expected': 'heartbeat keeps running; DISCONNECTED reported and reconnection attempted'}
     return None
 
@@ -389,6 +392,8 @@ def status_trace():
         async def cb(s):
             trace.append(s.name)
             if len(trace) == 2: raise RuntimeError('callback failure')
+            if len(trace) == 3: raise KeyError()          # an exception without arguments
+            if len(trace) == 4: assert False
         c.set_status_callback(cb)
         for s in (State.CONNECTED, State.CONNECTED, State.DISCONNECTED, State.DISCONNECTED, State.CONNECTED, State.CLOSED, State.CLOSED):
             await c._update_state(s)
@@ -397,7 +402,7 @@ def status_trace():
     asyncio.run(main())
     ''')
     if r.get('trace') != ['CONNECTED', 'DISCONNECTED', 'CONNECTED', 'CLOSED'] or r.get('state') != 'CLOSED':
-        return {'scenario': 'repeated and changing state updates with a status callback that raises once', 'observed': r, 'expected': "['CONNECTED','DISCONNECTED','CONNECTED','CLOSED']"}
+        return {'scenario': 'repeated and changing state updates with a status callback that raises (RuntimeError with a message, KeyError() and AssertionError() without arguments)', 'observed': r, 'expected': "['CONNECTED','DISCONNECTED','CONNECTED','CLOSED']"}
     return None
 
 
@@ -786,8 +791,8 @@ BATTERY = {
             None: [close_during_connect, fault_while_closing, status_trace, transport_opens_during_close, close_during_retry_wait]},
     'C13': {'eof': [eof_no_stall], 'reconnect-after-reset': [reconnect_after_reset], 'reconnect-mid-packet': [reconnect_mid_packet], 'fault-before-connected-reported': [fault_before_connected_reported],
             None: [eof_no_stall, close_during_connect, reconnect_after_reset, reconnect_mid_packet, read_fails_with_value_error, fault_before_connected_reported]},
-    'C12': {'reconnect-mid-packet': [reconnect_mid_packet], 'callback-window': [callback_window], None: [delivery_order, delivery_all_clients, serial_split_marker, reconnect_mid_packet, callback_window]},
-    'C06': {None: [delivery_all_clients, serial_split_marker]},
+    'C12': {'reconnect-mid-packet': [reconnect_mid_packet], 'callback-window': [callback_window], 'segmented-reads': [delivery_all_clients], None: [delivery_order, delivery_all_clients, serial_split_marker, reconnect_mid_packet, callback_window]},
+    'C06': {'segmented-reads': [delivery_all_clients], None: [delivery_all_clients, serial_split_marker]},
     'C20': {'bound': [serial_buffer], 'split-marker': [serial_split_marker, serial_packet_end_at_read_boundary], None: [serial_buffer, serial_split_marker, serial_packet_end_at_read_boundary, delivery_all_clients]},
 }
 
